@@ -146,7 +146,7 @@ def script_property(run, gen, relevant, variants_quick=("sse2-debug",), variants
         "level_a_steps": stats.get("level_a", 0), "level_b_states": stats.get("level_b", 0),
         "op_distribution": ops, "hard_branch_counts": branch, "variants": list(exes.keys()),
         "proof_problems": cs["problems"], "cone_files": cs.get("files", []),
-        "print_assumptions_closed": cs.get("assumptions_closed"), "known_findings_hit": run.known_hits,
+        "print_assumptions_closed": cs.get("assumptions_closed"), "coqchk": cs.get("coqchk"), "known_findings_hit": run.known_hits,
     }
     if partial_note:
         cov["partial"] = partial_note
@@ -274,7 +274,7 @@ def check_c17(run):
         "rule": "translator validation: every query of the boundary grid (capacities around 7/8*2^k and 2^k up to 2^64, layouts over sizes x aligns x bucket counts incl. the isize::MAX boundary, probe sequences for every table size, is_in_same_group) is answered by the hook wrappers of the real code (both group widths) and by the extracted Gen.* definitions; answers must be equal, and are also judged by the C17 specification predicates. non-trivial = all but the tag-class / h1 identity queries",
         "samples": samples, "translator_mismatches": mism, "query_kinds": kinds,
         "proof_problems": cs["problems"], "cone_files": cs.get("files", []),
-        "print_assumptions_closed": cs.get("assumptions_closed"),
+        "print_assumptions_closed": cs.get("assumptions_closed"), "coqchk": cs.get("coqchk"),
     }
     return H.finish(run, cov, "proof")
 
@@ -447,7 +447,7 @@ def check_c18(run):
         "evaluations": queries + cross_steps, "distinct_nontrivial": queries,
         "rule": "scanner primitives: all 2-byte windows at every byte position (stride by tier) x fills, plus random groups of valid control bytes with tags drawn from the group, for match_tag / match_empty / match_empty_or_deleted / match_full / convert and the BitMask queries (iteration order, any_bit_set, lowest_set_bit, leading/trailing zeros); answered by both real back-ends (hook wrappers; portable one selected with --cfg miri), compared with the extracted Gen.* definitions (translator tie) and judged by the byte-wise definitions (property oracle). cross-backend: the same generated HashMap histories run on both back-ends, return values / len / contents compared step by step",
         "samples": samples, "translator_mismatches": mism, "query_kinds": kinds, "cross_backend_steps": cross_steps,
-        "proof_problems": cs["problems"], "cone_files": cs.get("files", []), "print_assumptions_closed": cs.get("assumptions_closed"),
+        "proof_problems": cs["problems"], "cone_files": cs.get("files", []), "print_assumptions_closed": cs.get("assumptions_closed"), "coqchk": cs.get("coqchk"),
         "partial": "semantics of the six SSE2 intrinsics are trusted as documented (Base/Sse2.v); identical observables across back-ends for whole histories is carried by the C01/C06 refinement theorems being stated for every BackendSpec back-end plus the run-time cross-check here",
     }
     return H.finish(run, cov, "proof", assumptions=[cov["partial"]])
@@ -560,7 +560,7 @@ def check_c16(run):
         "rule": "probe programs compiled with rustc against the freshly built hashbrown rlib: for every public type x trait (Send/Sync) x choice of a non-Send / non-Sync marker type for one parameter, acceptance must equal the Coq calculus' prediction (evaluated inside Coq); borrow probes (a handle held across a mutation / drop / scope escape must be rejected, its twin accepted) and variance probes (lifetime shortening through mutable handles must be rejected). non-trivial = probes that rustc must reject",
         "samples": [l for l in out.split("\n") if l.startswith("STATS")][:1] or ["(no probe ran)"],
         "probe_stats": st, "calculus_vs_rustc_disagreements": len(tie),
-        "proof_problems": cs["problems"], "cone_files": cs.get("files", []), "print_assumptions_closed": cs.get("assumptions_closed"),
+        "proof_problems": cs["problems"], "cone_files": cs.get("files", []), "print_assumptions_closed": cs.get("assumptions_closed"), "coqchk": cs.get("coqchk"),
         "partial": "the calculus is a model of rustc's trait solver / variance inference for these declarations, not a verified one; the borrow-lifetime part of the property is decided by rustc on the probe programs only (no theorem); soundness of the code behind the unsafe impls is C02's subject",
     }
     return H.finish(run, cov, "proof", assumptions=[cov["partial"]])
